@@ -20,8 +20,9 @@ RULE = ('full product of model family/options x weight tying x saliency x eps x 
         'compared along every EM edge and every jump edge')
 ASSUMPTIONS = ['independent log-likelihood uses the reference densities (mpmath) and the stored weights',
                'edges with an active numerical guard (cACG eigenvalue < 1e4*floor, Watson concentration at a '
-               'bound, affiliation at the clip, a Gaussian class collapsed onto one point so that its variance '
-               'is below 1e-20 of the data variance) are counted but not judged']
+               'bound, affiliation at the clip, a Gaussian class collapsed: all but 1e-6 of its mass on <= D points (full) '
+               '/ one point (diagonal, spherical), or a variance below 1e-20 of the data variance) are counted but '
+               'not judged']
 
 FAMILIES = (
     [('cacgmm', dict(covariance_norm=n, hermitize=h)) for n in ('eigenvalue', 'trace', False) for h in (True, False)]
@@ -35,17 +36,33 @@ def make_data(seed, model, lead, K, D, ds):
     N = 4 * K * D
     cplx = model in M.COMPLEX_OBS
     per = N // K
+    if ds == 'big_outlier':
+        # a far outlier only stays far if it cannot inflate the covariance of its class: its squared
+        # Mahalanobis distance is bounded by (class mass) / (its own weight), so the class must be large
+        per = 1200
+        N = K * per
     if ds == 'unclustered':
         y = A.generic_data(seed, lead + (N, D), 'c02', model, K, D, complex_=cplx)
     else:
         y, _ = A.clustered_data(seed, lead, K, per, D, 'c02', ds, model, complex_=cplx,
                                 noise={'clustered': 0.3, 'tight': 0.1}.get(ds, 0.5))
+        if ds == 'big_outlier':
+            # interleave the classes so that no start is aligned with the true partition
+            y = np.ascontiguousarray(y[..., np.argsort(np.arange(N) % per, kind='stable'), :])
         if not cplx:
             r = A.rng(seed, 'c02shift', model, K, D, ds)
             # real (Gaussian) data: a common offset, large compared with the spread for the 'tight' sets
             y = y + r.standard_normal(D) * (0.5 if ds != 'tight' else 1e6)
+    if ds in ('outlier', 'big_outlier') and not cplx:
+        # one observation far away from every cluster (60 times the spread): its best log-density is more than
+        # 745 below that of the other observations
+        y = np.array(y)
+        y[..., 0, :] += 60.0 * 0.5
     if model in M.INTEGRATION:
         emb, _ = A.clustered_data(seed, lead, K, per, 3, 'c02emb', ds, complex_=False, noise=0.4)
+        if ds == 'outlier':
+            emb = np.array(emb)
+            emb[..., 0, :] += 60.0 * 0.4
         return (y, emb), N
     return y, N
 
@@ -66,6 +83,24 @@ def gaussian_collapsed(m, scale2):
     else:
         v = 1.0 / np.asarray(g.precision).max()
     return bool(v < 1e-20 * scale2)
+
+
+def gaussian_support_collapsed(m, aff, sal):
+    """a Gaussian class whose mass sits (up to 1e-6 of it) on no more points than its covariance model can
+    span (D for full, 1 for diagonal / spherical): the exact ML covariance is singular, the likelihood
+    unbounded, and the stored smallest variance is determined by rounding."""
+    g = getattr(m, 'gaussian', None)
+    if g is None:
+        return False
+    D = np.asarray(g.mean).shape[-1]
+    need = D if type(g).__name__ == 'Gaussian' else 1
+    a = np.asarray(aff, dtype=float)
+    if sal is not None:
+        a = a * np.asarray(sal)[..., None, :]
+    srt = np.sort(a, axis=-1)[..., ::-1]
+    top = srt[..., :need].sum(-1)
+    tot = srt.sum(-1)
+    return bool((top >= (1 - 1e-6) * tot).any())
 
 
 def guards(model, m, floor=1e-10, kmax=500.0, scale2=None):
@@ -147,6 +182,8 @@ def run_traj(key):
             return viol(f'{model}: log-likelihood of state {i} is {L!r}')
         Ls.append(L)
         g = guards(model, m_i, scale2=scale2)
+        if g is None and model in ('gmm', 'gcacgmm') and gaussian_support_collapsed(m_i, g_i, sal):
+            g = 'gaussian class supported by no more points than its covariance can span'
         if g is None and eps_used and i + 1 < n:
             nxt = trace[i + 1][1]
             if (nxt <= eps_used * (1 + 1e-9)).any() or (nxt >= 1 - eps_used * (1 + 1e-9)).any():
@@ -215,8 +252,8 @@ def run_traj(key):
 def subchecks(tier, seed):
     thorough = tier == 'thorough'
     n = 50 if thorough else 12
-    datasets = ('clustered', 'unclustered', 'tight') if not thorough else \
-        ('clustered', 'unclustered', 'tight', 'loose')
+    datasets = ('clustered', 'unclustered', 'tight', 'outlier') if not thorough else \
+        ('clustered', 'unclustered', 'tight', 'loose', 'outlier')
     starts = (0, 1, 2)
 
     def cases():
@@ -234,7 +271,11 @@ def subchecks(tier, seed):
                             for K in (2, 3):
                                 for D in (2, 3):
                                     for ds in datasets:
+                                        if ds == 'outlier' and model not in ('gmm', 'gcacgmm'):
+                                            continue
                                         for st in starts:
+                                            if ds == 'outlier' and not thorough and (salk != 'none' or st):
+                                                continue
                                             if not thorough:
                                                 # quick: all pairs of (family, tying) with every data set;
                                                 # remaining axes vary together (covering design)
@@ -245,11 +286,23 @@ def subchecks(tier, seed):
                                                 if salk in ('tiny', 'cross') and (st != 0 or ds == 'tight' or K == 3):
                                                     continue
                                             yield (fam, wca, salk, eps, K, D, F, ds, st, n, seed)
-    return [Sub('em_trajectories',
+    def big_cases():
+        for fam, (model, fopts) in enumerate(FAMILIES):
+            if model != 'gmm':
+                continue
+            for F, wcas in ((1, ((-1,), -2)), (2, ((-1,), (-3,)))):
+                for wca in wcas:
+                    for st in (0, 1):
+                        yield (fam, wca, 'none', 'none', 2, 2, F, 'big_outlier', st, 4, seed)
+    big = Sub('em_large_with_outlier',
+              ('family', 'wca', 'sal', 'eps', 'K', 'D', 'F', 'data', 'start', 'n', 'seed'), big_cases, run_traj,
+              bound=dict(iterations=4, N='2400 per slice, one observation 60 spreads away', K=2, D=2,
+                         families='gmm full/diagonal/spherical'), require_flags=('increasing',))
+    return [big, Sub('em_trajectories',
                 ('family', 'wca', 'sal', 'eps', 'K', 'D', 'F', 'data', 'start', 'n', 'seed'),
                 cases, run_traj,
                 bound=dict(iterations=n, families=[f'{m}{o}' for m, o in FAMILIES],
                            N='4*K*D per slice', K=[2, 3], D=[2, 3], F=[1, 2],
                            datasets=list(datasets), starts=len(starts)),
                 exhaustive=thorough, min_nontrivial=100,
-                require_flags=('increasing',))]
+                require_flags=('increasing',))][::-1]
